@@ -7,7 +7,9 @@ import glob, json, os, re, shutil, subprocess, sys
 
 pid = sys.argv[1].upper()
 wt = "/tmp/seed_%s" % pid.lower()
-out = os.path.join(wt, "out")
+outname = sys.argv[2] if len(sys.argv) > 2 else "out"
+tag = sys.argv[3] if len(sys.argv) > 3 else ""
+out = os.path.join(wt, outname)
 
 
 def sh(cmd, timeout=1200):
@@ -17,7 +19,7 @@ def sh(cmd, timeout=1200):
 
 def demo_cmd(path):
     if path.endswith(".sh"):
-        return "timeout -s KILL 300 bash out/%s" % os.path.basename(path)
+        return "timeout -s KILL 300 bash %s/%s" % (outname, os.path.basename(path))
     src = open(path).read()
     lines = [l.strip().lstrip("*#/ ").rstrip() for l in src.splitlines()[:60]]
     for i, line in enumerate(lines):
@@ -27,10 +29,11 @@ def demo_cmd(path):
             while cmd.endswith("\\") and j + 1 < len(lines):
                 j += 1
                 cmd = cmd[:-1] + " " + lines[j]
+            cmd = re.split(r";\s*echo\b", cmd)[0]
             return "timeout -s KILL 600 sh -c '%s'" % cmd.replace("'", "'\\''")
     base = os.path.basename(path)[:-2]
-    return ("gcc -I lib -DHAVE_CONFIG_H -DHAWK_HAVE_CFG_H -fshort-wchar out/%s.c lib/.libs/libhawk.a -lm -ldl -lpthread -lquadmath -o out/%s "
-            "&& timeout -s KILL 300 out/%s" % (base, base, base))
+    return ("gcc -I lib -DHAVE_CONFIG_H -DHAWK_HAVE_CFG_H -fshort-wchar %s/%s.c lib/.libs/libhawk.a -lm -ldl -lpthread -lquadmath -o %s/%s "
+            "&& timeout -s KILL 300 %s/%s" % (outname, base, outname, base, outname, base))
 
 
 def suite():
@@ -65,7 +68,7 @@ for diff in sorted(glob.glob(os.path.join(out, "bug*.diff"))):
     if not ok:
         print("  original out:", o0[-300:].replace("\n", " | ")); print("  patched out:", o1[-300:].replace("\n", " | "))
         continue
-    d = os.path.join("/verif/seeded", pid, "%s-s%s" % (pid, k))
+    d = os.path.join("/verif/seeded", pid, "%s-%ss%s" % (pid, tag, k))
     os.makedirs(d, exist_ok=True)
     shutil.copy(diff, os.path.join(d, "patch.diff"))
     for dm in demos:
